@@ -8,6 +8,7 @@
 
 __all__ = """
 SHOW_INFORMATIONAL_MESSAGES
+check_worker_exit_codes
 resolve_parallelism
 """.split()
 
@@ -71,3 +72,25 @@ def resolve_parallelism(parallel):
         return parallel
 
     return 1
+
+
+def check_worker_exit_codes(workers):
+    """Raise an exception if any worker process failed.
+
+    Parameters
+    ----------
+    workers : iterable of :class:`multiprocessing.Process`
+        Worker processes that have already been joined.
+
+    Notes
+    -----
+    An exception raised inside a worker only terminates that process. Without
+    this check, the parent would return as if all of the work had been done.
+
+    """
+    n_failed = sum(1 for w in workers if w.exitcode != 0)
+
+    if n_failed:
+        raise Exception(
+            f"{n_failed} worker process(es) failed; the results are incomplete"
+        )
